@@ -21,7 +21,6 @@ installed after it was taken, and `loginEventFired` installed it even when it ra
 -/
 namespace Gate.C13
 
-abbrev Id := Int
 abbrev Reply := Option Bytes
 
 /-- What a registered `MessageConsumer` does when invoked. -/
@@ -37,10 +36,10 @@ inductive Variant where
 
 inductive Act where
   | sendInc (c : Consumer)
-  | sendReg (id : Id) (c : Consumer)
-  | clientWrite (id : Id)
-  | respLookup (id : Id) (ok : Bool) (data : Bytes)
-  | respConsume (id : Id) (c : Consumer) (r : Reply)
+  | sendReg (id : Int) (c : Consumer)
+  | clientWrite (id : Int)
+  | respLookup (id : Int) (ok : Bool) (data : Bytes)
+  | respConsume (id : Int) (c : Consumer) (r : Reply)
   | respCheck
   | complete
   | fireLock
@@ -51,28 +50,28 @@ inductive Act where
 
 structure State where
   -- fields of loginInboundConn
-  seq         : Id := 0                              -- sequenceCounter
-  outstanding : List (Id × Consumer) := []           -- outstandingResponses (a Go map: keys unique)
-  queue       : List Id := []                        -- loginMessagesToSend
+  seq         : Int := 0                              -- sequenceCounter
+  outstanding : List (Int × Consumer) := []           -- outstandingResponses (a Go map: keys unique)
+  queue       : List Int := []                        -- loginMessagesToSend
   fired       : Bool := false                        -- isLoginEventFired
   onAll       : Bool := false                        -- onAllMessagesHandled != nil
   -- observable outputs
-  clientOut   : List Id := []                        -- LoginPluginMessage ids written to the client, in order
-  consLog     : List (Id × Consumer × Reply) := []   -- consumer invocations, in order
-  backendOut  : List (Id × Int × Reply) := []        -- LoginPluginResponse{bid, reply} written to the backend (with the proxy id it answers)
+  clientOut   : List Int := []                        -- LoginPluginMessage ids written to the client, in order
+  consLog     : List (Int × Consumer × Reply) := []   -- consumer invocations, in order
+  backendOut  : List (Int × Int × Reply) := []        -- LoginPluginResponse{bid, reply} written to the backend (with the proxy id it answers)
   completions : Nat := 0                             -- invocations of the completion callback
   -- ghost history
-  registered  : List (Id × Consumer) := []           -- (id, consumer) as stored by SendLoginPluginMessage
-  hits        : List (Id × Consumer × Reply) := []   -- successful lookups (id, consumer found, reply carried by the response)
+  registered  : List (Int × Consumer) := []           -- (id, consumer) as stored by SendLoginPluginMessage
+  hits        : List (Int × Consumer × Reply) := []   -- successful lookups (id, consumer found, reply carried by the response)
   cleaned     : Bool := false                        -- clearOnAllMessagesHandled / cleanup ran
   premature   : Bool := false                        -- a response hit an id before the login event fired (its message was never sent)
   deriving Repr, Inhabited
 
 /-- Go `m[id] = c` -/
-def mapPut (m : List (Id × Consumer)) (id : Id) (c : Consumer) : List (Id × Consumer) :=
+def mapPut (m : List (Int × Consumer)) (id : Int) (c : Consumer) : List (Int × Consumer) :=
   (id, c) :: m.filter (fun e => e.1 != id)
 /-- Go `delete(m, id)` -/
-def mapDel (m : List (Id × Consumer)) (id : Id) : List (Id × Consumer) :=
+def mapDel (m : List (Int × Consumer)) (id : Int) : List (Int × Consumer) :=
   m.filter (fun e => e.1 != id)
 
 def replyOf (ok : Bool) (data : Bytes) : Reply := if ok then some data else none
@@ -141,7 +140,7 @@ def Sys.terminal (sys : Sys) : Bool := sys.ts.all (·.isEmpty)
 /-- The Go-level calls a goroutine can make on a `loginInboundConn`. -/
 inductive Call where
   | send (c : Consumer)                            -- SendLoginPluginMessage / relayToClient
-  | respond (id : Id) (ok : Bool) (data : Bytes)   -- handleLoginPluginResponse(LoginPluginResponse{id, ok, data})
+  | respond (id : Int) (ok : Bool) (data : Bytes)   -- handleLoginPluginResponse(LoginPluginResponse{id, ok, data})
   | fire                                           -- loginEventFired(completion)
   | clear                                          -- clearOnAllMessagesHandled
   | cleanup                                        -- cleanup (disconnect)
@@ -165,7 +164,7 @@ def initSys (prog : Program) : Sys := { st := {}, ts := prog.map (·.map Call.ac
 def Program.fires (prog : Program) : Nat := (prog.flatten.filter (· == .fire)).length
 
 /-- replies the client offers for id `n`: the `respond` calls of the program -/
-def Program.offers (prog : Program) (id : Id) (r : Reply) : Prop :=
+def Program.offers (prog : Program) (id : Int) (r : Reply) : Prop :=
   ∃ ok data, Call.respond id ok data ∈ prog.flatten ∧ r = replyOf ok data
 
 /-! ### gate-level scheduling used by the correspondence
